@@ -32,6 +32,8 @@ pub struct Stats {
     pub needs_own_writes: bool,
     /// keys that already existed and got a further parallel instance in this statement
     pub new_parallel_instances: BTreeSet<EKey>,
+    /// SET = map removed a key that the same statement had written earlier
+    pub replaced_own_writes: bool,
 }
 
 fn ent(target: &RV) -> String {
@@ -269,7 +271,9 @@ fn apply_set(m: &mut Model, st: &mut Stats, params: &BTreeMap<String, RV>, row: 
                     // be removed: that needs the statement to see its own writes (C24)
                     let e = ent(&t);
                     if st.wlog.iter().any(|((x, k), v)| *x == e && v.is_some() && !map.contains_key(k)) {
-                        st.needs_own_writes = true;
+                        // (the sequential reference removes these keys as well; whether the
+                        // engine does is what C12 asks about map replacement)
+                        st.replaced_own_writes = true;
                     }
                     for k in current_keys(m, &t) {
                         if !map.contains_key(&k) {
